@@ -379,9 +379,42 @@ def gen_scenario(rng, mode):
     def via():
         return rng.choice(hosts)
 
+    def callback_burst():
+        """several hosts (the client's own and others, interleaved) emit WITH callbacks to one client,
+        which then acknowledges out of issue order, with a duplicate: per-host ack ids collide"""
+        ns = namespaces[0]
+        cands = [s for s in spec.all_connected(ns) if spec.members(ns, s) <= {s}]
+        if not cands:
+            return
+        sid = rng.choice(cands)
+        home = spec.where(ns, sid)
+        others = [h for h in hosts if h != home]
+        base = len(spec.asked[sid])
+        vias = [home, rng.choice(others)] + [rng.choice(hosts) for _ in range(rng.randint(0, 2))]
+        rng.shuffle(vias)
+        for v in vias:
+            idx = counter['idx']
+            counter['idx'] += 1
+            push({'op': 'emit', 'via': v, 'ns': ns, 'to': {'s': sid}, 'skip': None, 'cb': idx, 'idx': idx,
+                  'data': rng.choice(DATA_KINDS)})
+        if mode == 'B':
+            for h in hosts:
+                push({'op': 'deliver', 'h': h, 'k': BIG})
+        order = list(range(base, len(spec.asked[sid])))
+        rng.shuffle(order)
+        if order and rng.random() < 0.6:
+            order.insert(rng.randrange(len(order) + 1), rng.choice(order))      # a duplicate ACK
+        for n in order:
+            push({'op': 'ack', 'ns': ns, 'sid': sid, 'n': n, 'args': rng.choice([[], [n], ['ok', n], [{'r': n}]])})
+            if mode == 'B' and rng.random() < 0.5:
+                push({'op': 'deliver', 'h': rng.choice(hosts), 'k': rng.choice([1, BIG])})
+
     guard = 0
     while len(ops) < n_ops and guard < 2000:
         guard += 1
+        if rng.random() < 0.05:
+            callback_burst()
+            continue
         x = rng.random()
         if mode == 'B' and x < 0.22:
             h = rng.choice(hosts)
